@@ -21,8 +21,15 @@ pub enum Fault {
     /// (`block_start .. block_start + block_len` is the data, the 4 CRC bytes follow): damage a
     /// block checksum cannot see, only the pack's global hash can
     FlipFix { file: usize, pos: u64, mask: u8, block_start: u64, block_len: u64 },
+    /// the file is not there at all (a pack that is legitimately unavailable); only used next to
+    /// damage in another file
+    Remove { file: usize },
     Multi(Vec<Fault>),
 }
+
+/// What `Fault::Remove` leaves in the in-memory file set: the writer of the case directory
+/// deletes the file instead of writing it.
+pub const REMOVED: &[u8] = b"\x00verif:this-file-is-removed\x00";
 
 impl Fault {
     pub fn kind(&self) -> &'static str {
@@ -38,6 +45,7 @@ impl Fault {
             Fault::SwapWith { .. } => "swap",
             Fault::FlipFix { .. } => "flip-with-fresh-block-crc",
             Fault::CopyRange { .. } => "misdirected-write",
+            Fault::Remove { .. } => "file-removed",
             Fault::Multi(_) => "multi",
         }
     }
@@ -55,6 +63,7 @@ impl Fault {
             Fault::SwapWith { file, other } => format!("swap:{file}:{other}"),
             Fault::CopyRange { file, src, dst, len } => format!("copy:{file}:{src}:{dst}:{len}"),
             Fault::FlipFix { file, pos, mask, block_start, block_len } => format!("flipfix:{file}:{pos}:{mask}:{block_start}:{block_len}"),
+            Fault::Remove { file } => format!("remove:{file}"),
             Fault::Multi(v) => format!(
                 "multi:{}",
                 v.iter().map(|f| f.encode()).collect::<Vec<_>>().join("+")
@@ -109,6 +118,9 @@ impl Fault {
                 len: n(2)?,
                 seed: n(3)?,
             },
+            "remove" => Fault::Remove {
+                file: n(1)? as usize,
+            },
             "copy" => Fault::CopyRange {
                 file: n(1)? as usize,
                 src: n(2)?,
@@ -143,6 +155,7 @@ impl Fault {
             | Fault::Garbage { file, .. }
             | Fault::SwapWith { file, .. }
             | Fault::CopyRange { file, .. }
+            | Fault::Remove { file }
             | Fault::FlipFix { file, .. } => vec![*file],
             Fault::Multi(v) => {
                 let mut f: Vec<usize> = v.iter().flat_map(|x| x.files()).collect();
@@ -214,6 +227,10 @@ impl Fault {
             Fault::Garbage { file, len, seed } => {
                 let mut rng = Rng::derive(*seed, "garbage", 0);
                 files[*file] = rng.bytes(*len as usize);
+                true
+            }
+            Fault::Remove { file } => {
+                files[*file] = REMOVED.to_vec();
                 true
             }
             Fault::CopyRange { file, src, dst, len } => {
